@@ -107,6 +107,32 @@ func checkC16(c *Ctx) error {
 			}
 			c.Add("runs_checked_against_reference_sets", 1)
 		}
+		// absolute: a configuration whose only defects are injected references to undeclared parameters / services is accepted
+		// as soon as the flags cover those classes - in whatever step the tool notices the reference
+		if len(cs.kinds) > 0 {
+			needP, needS, other := false, false, false
+			for _, k := range cs.kinds {
+				switch k {
+				case "missing-param":
+					needP = true
+				case "missing-service":
+					needS = true
+				case "missing-mixed":
+					needP, needS = true, true
+				default:
+					other = true
+				}
+			}
+			if !other {
+				for k, fl := range combos {
+					covered := (!needP || has(fl, "--ignore-missing-params")) && (!needS || has(fl, "--ignore-missing-services"))
+					if covered && runs[k].Res.Exit != 0 {
+						files["stdout-covered.txt"] = runs[k].Res.Stdout
+						c.Violate("only-ignored-classes-but-rejected:"+strings.Join(fl, "+"), fmt.Sprintf("flags %v: every defect of this configuration is a reference to an undeclared parameter/service of an ignored class (%v), yet it is rejected: %s", fl, cs.kinds, rejectReason2(runs[k])), files)
+					}
+				}
+			}
+		}
 		base := runs[0].Rep
 		params := base.ErrorsOf("Missing parameters")
 		svcs := base.ErrorsOf("Missing services")
